@@ -22,6 +22,7 @@ import c07_ops as O
 
 DERIVE = ("outOfPlace", "view", "copy", "contiguous")
 CHAINS = ["zero_", "add_", "mul_", "apply_", "fill_", "set_", "__setitem__/index"]
+POSTS = ["add_td", "iadd_td", "mul_td", "sub_td", "update_", "copy_", "add_alpha_td", "add_scalar", "zero_"]
 SECOND = ["permute", "transpose", "__getitem__/basic", "select", "exclude", "clone", "to_tensordict", "flatten_keys", "unsqueeze", "copy",
           "clone/shallow", "detach", "contiguous", "unbind", "split", "view", "__getitem__/advanced", "expand"]
 VERIF_DIR = __import__("pathlib").Path(__file__).resolve().parent.parent
@@ -205,6 +206,13 @@ def run_case(run: Run, spec, tmp):
         thunk = recipe(ctx)
     except Exception as e:
         return None, None, {"case": case, "status": "prep-raised:" + err_class(e)}
+    post = spec[8] if len(spec) > 8 else None
+    post_other = None
+    if post and post not in ("add_scalar", "zero_"):
+        try:
+            post_other = ctx.other()
+        except Exception:
+            post = None
     refresh_provenance(cont, cont.extra + ctx.args)
     td = cont.td
     world = P.World()
@@ -333,6 +341,72 @@ def run_case(run: Run, spec, tmp):
                 else:
                     steps.append(["op", chain, 3, ["w"] + [[n, world.tok.read(t)] for n, t in res_after], ["r"], ["s"]])
                     real_states.append([P.canon_real_obj(world, n0, ob) for ob in objs])
+    # ---- an in-place operation on the CONTAINER after the out-of-place / copy operation (memoised reads of a locked
+    #      container must still address the container's own tensors): expected values by torch on the handles held before
+    posted = False
+    post_verdict = None
+    if post and not chain and cls in ("outOfPlace", "copy", "view", "contiguous") and keys0 == keys1:
+        hmap = dict(self0)
+        omap = dict(P.leaves_of(post_other)) if post_other is not None else {}
+        fl = [(n, t) for n, t in self0 if t.dtype == P.DT]
+        if all(nonoverlapping(t) for _, t in fl) and (post_other is None or all(n in omap for n, _ in fl)):
+            expect = {}
+            for n, t in self0:
+                h = t.detach().clone()
+                if t.dtype == P.DT and t.numel():
+                    if post in ("add_td", "iadd_td"):
+                        h = h + omap[n]
+                    elif post == "add_alpha_td":
+                        h = h + 2.0 * omap[n]
+                    elif post == "mul_td":
+                        h = h * omap[n]
+                    elif post == "sub_td":
+                        h = h - omap[n]
+                    elif post in ("update_", "copy_"):
+                        h = omap[n].clone()
+                    elif post == "add_scalar":
+                        h = h + 1.5
+                    elif post == "zero_":
+                        h = h * 0.0
+                expect[n] = h
+            try:
+                with time_limit(20):
+                    tdp = cont.td
+                    if post == "add_td":
+                        tdp.add_(post_other)
+                    elif post == "iadd_td":
+                        tdp += post_other
+                    elif post == "add_alpha_td":
+                        tdp.add_(post_other, alpha=2.0)
+                    elif post == "mul_td":
+                        tdp.mul_(post_other)
+                    elif post == "sub_td":
+                        tdp.sub_(post_other)
+                    elif post == "update_":
+                        tdp.update_(post_other)
+                    elif post == "copy_":
+                        tdp.copy_(post_other)
+                    elif post == "add_scalar":
+                        tdp.add_(1.5)
+                    elif post == "zero_":
+                        tdp.zero_()
+            except Exception as e:
+                return None, None, {"case": case, "status": "post-raised:" + err_class(e), "msg": str(e)[:120]}
+            steps.append(["op", "add_", 0, ["w"] + [[n, world.tok.read(expect[n])] for n, _ in self0], ["r"], ["s"]])
+            real_states.append([P.canon_real_obj(world, n0, ob) for ob in objs])
+            case["post"] = post
+            posted = True
+            bad = [n for n, t in self0 if t.numel() and not torch.equal(t.detach(), expect[n])]
+            if bad:
+                post_verdict = f"{post} after {opname}: tensors obtained before do not hold the new values (entries {bad[:3]})"
+            elif cls in ("outOfPlace", "copy") and len(real_states) >= 2 and len(real_states[-1]) > 3:
+                # result entries that live in storages of their own (no aliasing with anything held) must not move
+                was = {l[0]: l for l in real_states[-2][3] if l[1] == "new"}
+                moved = [l[0] for l in real_states[-1][3] if l[0] in was and l != was[l[0]]]
+                if opname.startswith("memmap"):
+                    moved = []      # a second mapping of the same file aliases through the file system: outside the storage abstraction
+                if moved:
+                    post_verdict = f"{post} on the tensordict after {opname} modified the (un-aliased) tensors of the earlier result {moved[:3]}"
     # ---- a second public operation applied to the result (view of a view, copy of a view, view of a copy ...)
     op2 = spec[7] if len(spec) > 7 else None
     res2_leaves, doc2, second = [], None, False
@@ -486,6 +560,8 @@ def run_case(run: Run, spec, tmp):
                 verdicts.append(f"sentinel written through a view ({case['op2']}) of a view is not read through the source")
             if not shares_expected and (toks & seen):
                 verdicts.append(f"sentinel written through the result of {case['op2']} after a {ocls} op is read through the source")
+    if post_verdict:
+        verdicts.append(post_verdict)
     if lost_update:
         verdicts.append(lost_update)
     if chained and ocls in ("view", "copy"):
@@ -511,7 +587,7 @@ def run_case(run: Run, spec, tmp):
             if same != bool(s.is_contiguous()):
                 verdicts.append(f"contiguous(): entry {n} contiguous={s.is_contiguous()} but shares={same}")
     req = sx("c07.run", init, ["steps"] + steps)
-    meta = {"case": case, "status": "ok", "verdicts": verdicts, "n_pokes": len(pokes), "chained": chained, "second": second, "deviation": row in run.deviations, "struct_ok": struct_ok,
+    meta = {"case": case, "status": "ok", "verdicts": verdicts, "n_pokes": len(pokes), "chained": chained, "second": second, "posted": posted, "deviation": row in run.deviations, "struct_ok": struct_ok,
             "n_self": len(self0), "n_res": len(res_leaves), "alias_ok": all(res_alias_ok.values()) if res_alias_ok else True}
     return req, real_states, meta
 
@@ -683,6 +759,130 @@ def index_stream(run, drv):
         run.corr("index_class", case, o, a.strip())
 
 
+
+def subwindow_stream(run, drv):
+    """sub-tensordict windows taken with every kind of index (int-free: list / range / numpy array / index tensor / mask /
+    slice / tuple mixes) x indexed in-place writes (set_at_, update_at_, sub[i] = td, fill_, set_) : the SOURCE tensors the
+    caller obtained before must observe exactly the write torch's index_put semantics prescribes.  Model: the window's
+    entries are views (selectors) of the source leaves, the write is an in-place step of the table class."""
+    import numpy as np
+    from tensordict import TensorDict
+    rng = run.rng
+    n = 220 if run.tier == "quick" else 2200
+    reqs, exps, cases = [], [], []
+    for it in range(n):
+        cnt = P.Counter()
+        layout = rng.choice(["contiguous", "strided", "offset"])
+        td = TensorDict({"a": P.make_leaf((4, 3), layout, cnt), "n": TensorDict({"b": P.make_leaf((4, 2), layout, cnt)}, batch_size=[4])}, batch_size=[4])
+        wkind = rng.choice(["list", "range", "array", "tensor", "mask", "slice", "list", "range", "array"])
+        rows = sorted(rng.sample(range(4), rng.randint(2, 3)))
+        if rng.random() < 0.5:
+            rng.shuffle(rows)
+        if wkind == "list":
+            window = list(rows)
+        elif wkind == "range":
+            start = rng.randrange(0, 2)
+            window = range(start, start + rng.randint(2, 3))
+            rows = list(window)
+        elif wkind == "array":
+            window = np.array(rows)
+        elif wkind == "tensor":
+            window = torch.tensor(rows)
+        elif wkind == "mask":
+            rows = sorted(rows)
+            window = torch.tensor([r_ in rows for r_ in range(4)])
+        else:
+            start = rng.randrange(0, 2)
+            window = slice(start, start + rng.randint(2, 3))
+            rows = list(range(4))[window]
+        op = rng.choice(["set_at_", "update_at_", "__setitem__/index", "set_at_", "update_at_", "__setitem__/index", "fill_", "set_"])
+        key = rng.choice(["a", ("n", "b")])
+        i = rng.choice([0, 1, -1, slice(0, 1), slice(None)])
+        held = {"a": td["a"], "n.b": td["n", "b"]}
+        keys0 = sorted(map(str, td.keys(True, True)))
+        world = P.World()
+        names = ["a", "n.b"]
+        descs = {nm: (world.desc(held[nm]), world.tok.read(held[nm])) for nm in names}
+        n0 = len(world.sids)
+        store = [[] for _ in range(n0)]
+        for nm in names:
+            (sid, offs), reads = descs[nm]
+            cells = store[sid]
+            for o_, v_ in zip(offs, reads):
+                if o_ >= len(cells):
+                    cells.extend([0] * (o_ + 1 - len(cells)))
+                cells[o_] = v_
+        # the window's entries as selectors of the source entries: index the offsets with the same window index
+        wobj = []
+        for nm in names:
+            t = held[nm]
+            offs_t = torch.tensor(P.elem_offsets(t)).reshape(t.shape)
+            wobj.append([nm, descs[nm][0][0], offs_t[window if not isinstance(window, range) else list(window)].reshape(-1).tolist()])
+        init = ["init", ["store"] + store, ["objs", ["obj"] + wobj, ["obj"] + [["id:" + nm, descs[nm][0][0], descs[nm][0][1]] for nm in names]]]
+        case = {"layout": layout, "window": wkind, "rows": list(rows), "op": op, "key": key if isinstance(key, str) else ".".join(key), "index": str(i)}
+        # expected window values by torch's own semantics on clones
+        exp_win = {nm: held[nm][window if not isinstance(window, range) else list(window)].clone() for nm in names}
+        kname = case["key"]
+        try:
+            with time_limit(20):
+                sub = td._get_sub_tensordict(window)
+                if op == "set_at_":
+                    v = cnt.take(exp_win[kname][i].numel()).reshape(exp_win[kname][i].shape) + 0.5
+                    sub.set_at_(key, v, i)
+                    exp_win[kname][i] = v
+                elif op in ("update_at_", "__setitem__/index"):
+                    va = cnt.take(exp_win["a"][i].numel()).reshape(exp_win["a"][i].shape) + 0.5
+                    vb = cnt.take(exp_win["n.b"][i].numel()).reshape(exp_win["n.b"][i].shape) + 0.5
+                    val = TensorDict({"a": va, "n": TensorDict({"b": vb}, batch_size=va.shape[:va.dim() - 1])}, batch_size=va.shape[:va.dim() - 1])
+                    if op == "update_at_":
+                        sub.update_at_(val, i)
+                    else:
+                        sub[i] = val
+                    exp_win["a"][i] = va
+                    exp_win["n.b"][i] = vb
+                elif op == "fill_":
+                    sub.fill_(key, 3.0)
+                    exp_win[kname].fill_(3.0)
+                else:
+                    v = cnt.take(exp_win[kname].numel()).reshape(exp_win[kname].shape) + 0.5
+                    sub.set_(key, v)
+                    exp_win[kname] = v
+        except Exception as e:
+            run.count("subwindow.outcome", "raised:" + err_class(e))
+            continue
+        run.case(("subwindow", it, str(case)), nontrivial=True)
+        run.count("subwindow.outcome", "ok")
+        run.count("subwindow.window", wkind)
+        run.count("subwindow.op", op)
+        # oracle: the tensors obtained before observe the write; key set and bindings unchanged
+        what = []
+        if sorted(map(str, td.keys(True, True))) != keys0:
+            what.append("key set of the source changed")
+        if td["a"] is not held["a"] or td["n", "b"] is not held["n.b"]:
+            what.append("the source entry was rebound")
+        widx = window if not isinstance(window, range) else list(window)
+        for nm in names:
+            want = held[nm].clone()          # NB: clone of the CURRENT tensor, then overwrite the window rows with the expectation
+            want[widx] = exp_win[nm]
+            if not torch.equal(held[nm][widx], exp_win[nm]):
+                what.append(f"entry {nm}: the tensor held before the write does not show the written values in rows {list(rows)}")
+        if what:
+            run.oracle_fail("subwindow", case, "; ".join(what[:2]), fingerprint=f"subwindow|{wkind}|{op}")
+        else:
+            run.oracle_ok("subwindow")
+        writes = [[nm, world.tok.read(exp_win[nm])] for nm in names]
+        reqs.append(sx("c07.run", init, ["steps", ["op", "set_at_" if op in ("set_at_", "update_at_", "__setitem__/index") else op, 0, ["w"] + writes, ["r"], ["s"]]]))
+        exps.append([[nm, world.tok.read(held[nm])] for nm in names])
+        cases.append(case)
+    for case, e, a in zip(cases, exps, ask_chunked(drv, reqs)):
+        a = parse_sx(a)
+        if a[0] != "ok":
+            run.corr("subwindow(write-through)", case, "ok", a)
+            continue
+        model = [[str(l[0])[3:], l[3]] for l in a[1][2][1:]]      # object 1 = the source handles id:<name>
+        run.corr("subwindow(write-through)", case, e, model)
+
+
 def main():
     run = Run("C07")
     run.rule = ("every public operation of TensorDict (reflected) must have a row in the Lean class table; each row with a call recipe is executed on "
@@ -726,6 +926,7 @@ def main():
     # 1b. the write entry point
     setstr_stream(run, drv)
     index_stream(run, drv)
+    subwindow_stream(run, drv)
 
     # 2. cases
     rng = run.rng
@@ -737,7 +938,7 @@ def main():
     if cdir.exists():
         for f in sorted(cdir.glob("*.json")):
             for c in json.loads(f.read_text()).get("cases", []):
-                specs.append((c["kind"], c["layout"], list(c["history"]), c["op"], c["variant"], c["seed"], c.get("chain")))
+                specs.append((c["kind"], c["layout"], list(c["history"]), c["op"], c["variant"], c["seed"], c.get("chain"), c.get("op2"), c.get("post")))
     for op in sorted(probed):
         nrec = len(O.R[op])
         # the canonical configuration for every recipe of the operation
@@ -756,7 +957,17 @@ def main():
             if chain is None and f"{op}%{kind}" in run.deviations and rng.random() < 0.7:
                 chain = rng.choice(CHAINS)
             op2 = rng.choice(SECOND) if (chain is None and table[op] in ("view", "copy", "contiguous") and rng.random() < 0.6) else None
-            specs.append((kind, layout, hist, op, rng.randrange(64), rng.randrange(1 << 30), chain, op2))
+            post = None
+            if chain is None and op2 is None and table[op] in ("outOfPlace", "copy") and rng.random() < 0.6:
+                post = rng.choice(POSTS)
+            specs.append((kind, layout, hist, op, rng.randrange(64), rng.randrange(1 << 30), chain, op2, post))
+    # every out-of-place arithmetic method x every operand / kwarg combination on locked containers with warm caches,
+    # followed by an in-place operation on the container
+    arith = [k for k in sorted(probed) if table[k] == "outOfPlace" and k in (O.UNARY + O.BINARY + ["lerp", "addcdiv", "addcmul", "clamp", "where", "masked_fill", "apply", "named_apply"])]
+    for op in arith:
+        for v in (range(9) if op in O.BINARY else range(2)):
+            for kind in (("locked", "shared") if quick else ("locked", "shared", "memmap", "nested")):
+                specs.append((kind, "contiguous", [], op, v, rng.randrange(1 << 30), None, None, rng.choice(POSTS[:7])))
     if not quick:
         # full grid kind x layout for the operations the property names
         named = [k for k in probed if table[k] in ("inplace", "view", "copy", "contiguous")]
@@ -774,7 +985,7 @@ def main():
             except Infra:
                 raise
             except TimeoutError:
-                req, states, meta = None, None, {"case": {"kind": spec[0], "layout": spec[1], "history": spec[2], "op": spec[3], "variant": spec[4], "seed": spec[5], "chain": spec[6] if len(spec) > 6 else None}, "status": "timeout"}
+                req, states, meta = None, None, {"case": {"kind": spec[0], "layout": spec[1], "history": spec[2], "op": spec[3], "variant": spec[4], "seed": spec[5], "chain": spec[6] if len(spec) > 6 else None, "post": spec[8] if len(spec) > 8 else None}, "status": "timeout"}
             cls = meta["case"].get("class") or table[spec[3]]
             run.count("case.status", meta["status"].split(":")[0])
             run.count("case.kind", spec[0])
@@ -783,6 +994,8 @@ def main():
             run.count("case.history_len", len(spec[2]))
             if meta.get("chained"):
                 run.count("case.chained", f"{cls}+{spec[6]}")
+            if meta.get("posted"):
+                run.count("case.post_inplace", f"{cls}+{meta['case'].get('post')}")
             if meta.get("second"):
                 run.count("case.second_op", f"{cls}+{meta['case'].get('op2')}")
             if meta["status"] != "ok":
